@@ -22,6 +22,8 @@ EXPLANATION = (
     "between allocation and registration, correctness of the callee (C06).")
 EXPLANATION += (
     " H6: every value handed to wrap_shared_ptr / the shared-return template is the callee's own shared pointer passed through or a std::make_shared copy, never a shared_ptr constructed around an address. H7: no compute-once table in the MATLAB wrapper is keyed by a mere projection of what its value is computed from (e.g. enum names per namespace *name*), so marshalling decisions depend on the declaration at hand only.")
+EXPLANATION += (
+    " H9: the two builders of the .m dispatch conditions (methods / static methods and constructors / free functions) append the same per-argument tests - class test and the fixed-shape tests of Vector, Point2, Point3 - keyed by the declared C++ type, so the argument values select the same overload whatever kind of callable is dispatched (rule shared with C06 M2).")
 ASSUMPTIONS = ["the .m files are the only client of the gateway (ids reach routines as decided by C05)",
                "clang/stubs as in C18"]
 
@@ -35,5 +37,7 @@ def run(ctx, rep):
     rep.run(RM.rule_group_by_name, ctx, rep, "H8")
     rep.run(RH.rule_handle_protocol, ctx, rep, "H5")
     rep.run(RM.rule_return_ownership, ctx, rep, "H6")
+    # H9: the .m dispatch that selects the routine id tests every argument the same way for every kind of callable
+    rep.run(RM.rule_sibling_guards, ctx, rep, "H9")
     rep.run(RF.rule_memo_key_complete, ctx, rep, "H7", packages=("gtwrap/matlab_wrapper",), min_functions=50)
     rep.run(RF.rule_locals_defined, ctx, rep, "U1", packages=("gtwrap/matlab_wrapper",), min_functions=3)
